@@ -141,6 +141,20 @@ static std::string check_jwk_doc(int prov, int how, const std::string &doc) {
   if (owner) jwks_free(owner);
   return r;
 }
+// a JWK member that is valid text of ANOTHER length encoding the same number (leading zero octets in front of, or stripped from, one member
+// only): every member decodes to the octets it encodes, so the imported key is the same one
+static std::string item_pem_of(int prov, int how, const std::string &doc, bool *err) {
+  set_provider(prov); jwk_set_t *owner = nullptr; jwk_set_t *set = load_via(how, doc, &owner); std::string pem; *err = true;
+  if (set) { const jwk_item_t *it = jwks_item_get(set, jwks_item_count(set) ? jwks_item_count(set) - 1 : 0); if (it) { *err = jwks_item_error(it) != 0; const char *p = jwks_item_pem(it); if (p) pem = p; } }
+  if (owner) jwks_free(owner);
+  return pem;
+}
+static std::string check_jwk_equiv(int prov, int how, const std::string &orig, const std::string &doc) {
+  bool e0, e1; std::string p0 = item_pem_of(prov, how, orig, &e0), p1 = item_pem_of(prov, how, doc, &e1);
+  if (e0 || p0.empty()) return "";   // (the unmodified key must load for the comparison to mean anything)
+  if (e1) return "refused";
+  return p0 == p1 ? "" : "imported-as-another-key";
+}
 static std::string check_token_seg(int prov, const KeySpec &k, jwt_alg_t alg, const std::string &tok) {
   set_provider(prov); set_now(1700000000);
   JwkOpts o; o.priv = k.kind == K_OCT; LKey lk(jwk_json(k, o)); if (!lk.ok()) return "";
@@ -165,6 +179,17 @@ static void part_users(Stats &st, const Args &a) {
         std::string orig = json_string_value(mv);
         // a private OKP JWK is built from d alone ("EdDSA only need one or the other"): its x is never decoded, so it is not text the statement speaks about
         if (k.kind == K_OKP && priv && !strcmp(mn, "x")) { st.cls("member-the-library-never-decodes(skipped)"); continue; }
+        // numbers (RSA and EC members) written with one or two leading zero octets, or without the ones they had: same key
+        if (k.kind == K_RSA || k.kind == K_EC) { std::string raw; if (b64u_dec_strict(orig, raw) && !raw.empty()) {
+          std::vector<std::string> alts = {std::string(1, '\0') + raw, std::string(2, '\0') + raw}; { size_t z = 0; while (z + 1 < raw.size() && raw[z] == 0) z++; if (z) alts.push_back(raw.substr(z)); }
+          std::string otext = jwk.dump(JSON_COMPACT);
+          for (auto &alt : alts) { J doc(json_deep_copy(jwk.p)); std::string enc = b64u_enc(alt); json_object_set_new(doc.p, mn, json_stringn(enc.data(), enc.size())); std::string text = doc.dump(JSON_COMPACT);
+            for (int prov = 0; prov < 2; prov++) for (int how = 0; how < 4; how += 3) {
+              if ((int)(idx++ % a.nworkers) != a.worker) continue;
+              std::string r = check_jwk_equiv(prov, how, otext, text); st.evaluations++; st.cls("jwk-number-member-of-another-length(same-number)"); st.nontrivial(mix(fnv(text), prov * 4 + how + 100));
+              if (!r.empty()) { stats().violation(std::string("C11:jwk-member-of-another-length:") + r + ":" + (k.kind == K_RSA ? "RSA" : "EC") + "." + mn + (priv ? ":private" : ":public"),
+                  "a JWK whose member encodes the same number with " + std::to_string(alt.size()) + " instead of " + std::to_string(raw.size()) + " octets is " + r, "{\"kind\":\"jwkequiv\",\"prov\":" + std::to_string(prov) + ",\"how\":" + std::to_string(how) + ",\"orig\":" + jstr(otext) + ",\"doc\":" + jstr(text) + "}"); return; }
+            } } } }
         for (int v = 0; v < NCORR; v++) {
           std::string bad = corrupt_text(orig, v); if (bad == orig) continue;
           J doc(json_deep_copy(jwk.p)); json_object_set_new(doc.p, mn, json_stringn(bad.data(), bad.size())); std::string text = doc.dump(JSON_COMPACT);
@@ -203,6 +228,7 @@ int main(int argc, char **argv) {
     J j = J::parse(read_file(a.replay));
     const char *kind = json_string_value(json_object_get(j.p, "kind"));
     const char *hx = json_string_value(json_object_get(j.p, "hex"));
+    if (kind && !strcmp(kind, "jwkequiv")) return check_jwk_equiv((int)json_integer_value(json_object_get(j.p, "prov")), (int)json_integer_value(json_object_get(j.p, "how")), json_string_value(json_object_get(j.p, "orig")), json_string_value(json_object_get(j.p, "doc"))).empty() ? 0 : 3;
     if (kind && !strcmp(kind, "jwkmember")) return check_jwk_doc((int)json_integer_value(json_object_get(j.p, "prov")), (int)json_integer_value(json_object_get(j.p, "how")), json_string_value(json_object_get(j.p, "doc"))).empty() ? 0 : 3;
     if (kind && !strcmp(kind, "tokseg")) { Pool pool = standard_pool(); return check_token_seg((int)json_integer_value(json_object_get(j.p, "prov")), pool.get(json_string_value(json_object_get(j.p, "key"))), jwt_str_alg(json_string_value(json_object_get(j.p, "alg"))), from_latin1_utf8(json_string_value(json_object_get(j.p, "token")))).empty() ? 0 : 3; }
     if (!kind || !hx) return 2;
